@@ -438,15 +438,27 @@ def history(case, r):
             if op["poke"] != "none":
                 tgt = ne if op["poke"] == "copy" else e
                 if not tgt.comps[0].dtype.startswith("int"):
-                    for m in tgt.comps:
-                        if m.sel is None:
-                            w.bufs[m.buf][...] = w.bufs[m.buf] * 2.0
-                        else:
-                            w.bufs[m.buf][m.sel] = w.bufs[m.buf][m.sel] * 2.0
                     x = tgt.objs[0]
                     x *= 2.0
                     if x is not tgt.objs[0]:
                         tgt.objs.insert(0, x)
+                    # the doubled physical value, expressed in whatever unit osyris chose (a scaled dimensionless unit
+                    # such as g/kg absorbs the converted factor: 0.5 g/kg * 2 == 1000 g^2/kg^2)
+                    for m, a in zip(tgt.comps, _arrays_of(x)):
+                        try:
+                            gu = um.from_pint(a.unit)
+                        except um.UnknownUnit as ex:
+                            raise RuntimeError(f"unit model does not know {ex}")
+                        if not um.same_dims(gu, m.unit):
+                            r.bad(["inplace-unit", "*", "target-dtype=" + m.dtype], f"{where}: x *= 2.0 gave unit {a.unit}")
+                            break
+                        with np.errstate(all="ignore"):
+                            newraw = w.raw(m) * (2.0 * m.unit[0] / gu[0])
+                        if m.sel is None:
+                            w.bufs[m.buf][...] = newraw
+                        else:
+                            w.bufs[m.buf][m.sel] = newraw
+                        m.unit = (gu[0], m.unit[1])
                     n_shared_updates += 1
                     r.label("shared_update")
         elif o == "slice":
